@@ -19,3 +19,5 @@ import EmuVerif.Props.C21
 #print axioms EmuVerif.Props.C21.reps_total
 #print axioms EmuVerif.Props.C21.reps_each
 #print axioms EmuVerif.Props.C21.merge_needed_example
+#print axioms EmuVerif.Props.C21.trajectories_requested
+#print axioms EmuVerif.Props.C21.simulated_eq_requested
